@@ -768,7 +768,7 @@ def fifo1(ctx: Ctx, chk) -> None:
         raise AnalysisError("FIFO-1: queue construction not found")
     qc = qs[0].value
     names = callee_names(ctx, init, qc)
-    if "asyncio.queues.Queue" in names and not qc.args and not qc.keywords:
+    if ("asyncio.queues.Queue" in names or "asyncio.Queue" in names) and not qc.args and not qc.keywords:
         chk.ok(rule, fkey(init, qc), "asyncio.Queue() - FIFO, unbounded", ctx.loc(init, qc))
     else:
         chk.refute(rule, fkey(init, qc), f"`{norm(qc)}` is not an unbounded FIFO asyncio.Queue (ordering or put_nowait totality is lost)", ctx.loc(init, qc))
